@@ -122,3 +122,47 @@ func TCDF(nu, t float64) float64 {
 	}
 	return TCDFBeta(nu, t)
 }
+
+// TTail is the upper tail P(T > t) of Student's t for t >= 1 with a small
+// RELATIVE error however small the tail is: half the regularized incomplete
+// beta I_x(nu/2, 1/2) at x = nu/(nu+t^2), which mathext evaluates directly
+// (no complement is taken for t^2 > 1). The closed form of TCDFInt loses the
+// tail to cancellation once nu is in the hundreds.
+func TTail(nu, t float64) float64 {
+	return 0.5 * mathext.RegIncBeta(nu/2, 0.5, nu/(nu+t*t))
+}
+
+// TTailQuad integrates the density over [t, inf) by panelled Gauss-Legendre
+// (relative accuracy; the adjudicator of TTail).
+func TTailQuad(nu, t float64) float64 {
+	sum := 0.0
+	lo := t
+	for k := 0; k < 20000; k++ {
+		// panels of at most 1.5 e-foldings of the density, and never wider
+		// than an eighth of the abscissa (the polynomial tail of a small nu)
+		w := math.Min(0.125*math.Max(lo, 1), 1.5*(nu+lo*lo)/((nu+1)*lo))
+		piece := GL(func(x float64) float64 { return TPDF(nu, x) }, lo, lo+w, 1)
+		sum += piece
+		lo += w
+		if piece < 1e-19*sum {
+			break
+		}
+	}
+	return sum
+}
+
+// TTailEven is the upper tail for EVEN integer nu from the finite closed form
+// (Abramowitz & Stegun 26.7.4) evaluated at 384 bits, where the cancellation
+// in 1 - A(t|nu) costs nothing (tails down to about 1e-100).
+func TTailEven(nu int, t float64) float64 {
+	bt := NF(t)
+	den := Add(NI(int64(nu)), Mul(bt, bt))
+	s := Quo(bt, Sqrt(den))
+	c2 := Quo(NI(int64(nu)), den)
+	term, sum := NF(1), NF(1)
+	for k := 1; 2*k <= nu-2; k++ {
+		term = Quo(Mul(Mul(term, NI(int64(2*k-1))), c2), NI(int64(2*k)))
+		sum = Add(sum, term)
+	}
+	return F64(Quo(Sub(NF(1), Mul(s, sum)), NF(2)))
+}
